@@ -159,6 +159,7 @@ impl TraitHandler for HashEnumHandler {
 
         token_stream.extend(quote! {
             impl #impl_generics ::core::hash::Hash for #ident #ty_generics #where_clause {
+                #[allow(non_snake_case)] // the bindings are named after the fields, with a prefix
                 #[inline]
                 fn hash<#hasher: ::core::hash::Hasher>(&self, state: &mut #hasher) {
                     #hash_token_stream
